@@ -81,7 +81,7 @@ func (inflectFam) Exec(c core.CaseIn, rng *rand.Rand, emit func(cas, conc, obs a
 		alone = input
 	} else {
 		alone = styled(ic.Word, ic.Style)
-		lead = ic.Prefix + ic.Boundary
+		lead = strings.ReplaceAll(ic.Prefix, "<NL>", "first line\nthe") + ic.Boundary
 		input = lead + alone
 		law = ic.Kind == "irregular" && ic.Boundary != ""
 	}
